@@ -93,6 +93,18 @@ class Mod:
                 if any(dotted(d) in ("overload", "typing.overload", "t.overload") for d in st.decorator_list):
                     continue
                 found = st
+        if found is None and len(parts) == 2:
+            # not defined in the class body: the method the class inherits from a base class of the same module, when that one is concrete
+            # (a refactoring may hoist a method shared by sibling classes into their common base)
+            for base in self.cls(parts[0]).bases:
+                bn = dotted(base)
+                if bn and self.has_cls(bn) and bn != parts[0]:
+                    try:
+                        cand = self.func(f"{bn}.{parts[1]}")
+                    except AnchorMissing:
+                        continue
+                    if not _is_abstract(cand):
+                        return cand
         if found is None:
             raise AnchorMissing(f"function {qual} not found in {self.rel}")
         return found
@@ -104,8 +116,14 @@ class Mod:
         except AnchorMissing:
             return False
 
-    def methods(self, cls: str) -> dict[str, ast.FunctionDef]:
+    def methods(self, cls: str, inherited: bool = False) -> dict[str, ast.FunctionDef]:
+        """the methods defined in the class body; with `inherited`, also the concrete ones of its base classes in the same module"""
         out: dict[str, ast.FunctionDef] = {}
+        if inherited:
+            for base in self.cls(cls).bases:
+                bn = dotted(base)
+                if bn and bn != cls and self.has_cls(bn):
+                    out.update({k: f for k, f in self.methods(bn, True).items() if not _is_abstract(f)})
         for st in _class_body(self.cls(cls)):
             if isinstance(st, ast.FunctionDef):
                 if any(dotted(d) in ("overload", "typing.overload") for d in st.decorator_list):
@@ -168,6 +186,13 @@ def _in_except(node: ast.AST) -> bool:
             return True
         p = getattr(p, "_parent", None)
     return False
+
+
+def _is_abstract(f: ast.FunctionDef) -> bool:
+    if any(dotted(d) in ("abstractmethod", "abc.abstractmethod") for d in f.decorator_list):
+        return True
+    body = [st for st in f.body if not (isinstance(st, ast.Expr) and isinstance(st.value, ast.Constant))]
+    return len(body) == 1 and isinstance(body[0], ast.Raise) and "NotImplementedError" in ast.unparse(body[0])
 
 
 def _class_body(c: ast.ClassDef) -> list[ast.stmt]:
@@ -634,6 +659,16 @@ def fold_name(name: str, m: Mod, cls: str | None = None, _depth: int = 0) -> Any
         return fold_name(imp[1], target, None, _depth + 1)
     if name in ("str", "int", "float"):
         return {"str": str, "int": int, "float": float}[name]
+    # a function of the module (or of the class) used as a table entry: kept like a lambda - its single returned expression when it has that form
+    for holder in ([m.cls(cls)] if cls is not None and m.has_cls(cls) else []) + [m.tree]:
+        for st in holder.body:
+            if isinstance(st, ast.FunctionDef) and st.name == name:
+                body = [x for x in st.body if not (isinstance(x, ast.Expr) and isinstance(x.value, ast.Constant))]
+                expr = body[0].value if len(body) == 1 and isinstance(body[0], ast.Return) and body[0].value is not None else ast.Name(id=f"<function {name}>", ctx=ast.Load())
+                lam = ast.Lambda(args=st.args, body=expr)
+                ast.copy_location(lam, st)
+                ast.fix_missing_locations(lam)
+                return Lambda(lam)
     raise NotConst(name)
 
 
@@ -642,6 +677,18 @@ def const(modname: str, name: str, cls: str | None = None) -> Any:
     try:
         return fold_name(name, m, cls)
     except NotConst as e:
+        if cls is None:
+            # a module-level value assembled by helper functions of the module (a pattern built from named fragments): evaluated
+            # by the checker's interpreter; `re.compile(p, flags)` stands for the pattern text, as in the folder
+            try:
+                from .rules import minieval
+                funcs = {st.name: st for st in m.top() if isinstance(st, ast.FunctionDef)}
+                glob = {**minieval.module_consts(m), "re": minieval.Stub(compile=lambda p_, *a, **k: p_, VERBOSE=64, X=64, IGNORECASE=2, I=2, escape=__import__("re").escape)}
+                minieval.module_tables(m, glob, funcs)
+                if name in glob and isinstance(glob[name], (str, int, float, tuple, list, dict)):
+                    return glob[name]
+            except Exception:       # noqa: BLE001
+                pass
         raise Unsupported(f"{modname}:{name} is not a foldable constant ({e})")
 
 
